@@ -49,6 +49,41 @@ def inet_sockets_opened():
     return _INET_SOCKETS[0]
 
 
+# ---------------------------------------------------------------------------
+# reach monitor: which functions of the code under test did the workload enter?
+# ---------------------------------------------------------------------------
+
+_REACHED = set()
+_REACH_ON = [False]
+
+
+def install_reach_monitor(src_dir):
+    """
+    sys.monitoring PY_START on tool id 4; every code object of puresnmp /
+    puresnmp_plugins reports once and is then DISABLEd, so the cost is nil.
+    Evidence only: shows that the anchored code really ran.
+    """
+    if _REACH_ON[0]:
+        return
+    mon = sys.monitoring
+    prefixes = (os.path.join(src_dir, "puresnmp") + os.sep, os.path.join(src_dir, "puresnmp_plugins") + os.sep)
+    cut = len(src_dir.rstrip(os.sep)) + 1
+
+    def cb(code, offset):
+        fn = code.co_filename
+        if fn.startswith(prefixes):
+            _REACHED.add("%s:%s" % (fn[cut:], code.co_qualname))
+        return mon.DISABLE
+
+    try:
+        mon.use_tool_id(4, "vf-reach")
+    except ValueError:
+        return
+    mon.register_callback(4, mon.events.PY_START, cb)
+    mon.set_events(4, mon.events.PY_START)
+    _REACH_ON[0] = True
+
+
 def load_findings():
     try:
         with open(FINDINGS_FILE) as fh:
@@ -162,6 +197,7 @@ class Run:
             "exhaustive": self.exhaustive,
             "capped": self.capped,
             "inet_sockets": inet_sockets_opened(),
+            "reached": sorted(_REACHED),
         }
 
 
@@ -179,6 +215,7 @@ def merge(dumps):
         "exhaustive": None,
         "capped": False,
         "inet_sockets": 0,
+        "reached": set(),
     }
     exh = []
     for d in dumps:
@@ -206,6 +243,7 @@ def merge(dumps):
         exh.append(d["exhaustive"])
         out["capped"] = out["capped"] or d["capped"]
         out["inet_sockets"] += d.get("inet_sockets", 0)
+        out["reached"].update(d.get("reached", ()))
     if exh and all(e is True for e in exh):
         out["exhaustive"] = True
     elif any(e is not None for e in exh):
@@ -213,6 +251,41 @@ def merge(dumps):
     out["violations"].sort(key=lambda v: (v["mechanism"] is not None, str(v["mechanism"])))
     out["violations"] = out["violations"][:MAX_VIOLATIONS_KEPT]
     return out
+
+
+def anchor_reach(prop, reached):
+    """
+    Match the functions the workload entered against the property's anchors
+    (properties.jsonl).  Returns (summary dict, list of anchor files in which
+    nothing at all was entered).
+    """
+    import re
+
+    try:
+        with open(os.path.join(VERIF_DIR, "properties.jsonl")) as fh:
+            props = {json.loads(l)["id"]: json.loads(l) for l in fh if l.strip()}
+    except OSError:
+        return {}, []
+    p = props.get(prop)
+    if not p:
+        return {}, []
+    by_file = {}
+    for item in reached:
+        f, q = item.split(":", 1)
+        by_file.setdefault("src/" + f, set()).add(q)
+    out = {"functions_entered": len(reached), "anchor_files": {}, "anchor_mechanisms": []}
+    silent = []
+    for f in p["anchors"].get("files", []):
+        n = len(by_file.get(f, ()))
+        out["anchor_files"][f] = n
+        if n == 0:
+            silent.append(f)
+    for m in p["anchors"].get("mechanism", []):
+        where = m.get("where", "")
+        names = set(re.findall(r"[A-Za-z_][A-Za-z_0-9]*(?:\.[A-Za-z_][A-Za-z_0-9]*)*", where.split(":", 1)[-1] if ":" in where else ""))
+        hit = sorted({q for qs in by_file.values() for q in qs for n in names if q == n or q.endswith("." + n.split(".")[-1]) or q.split(".<locals>.")[0].endswith(n.split(".")[-1])})
+        out["anchor_mechanisms"].append({"where": where[:120], "entered": hit[:8]})
+    return out, silent
 
 
 def write_replay(prop, violation):
